@@ -429,13 +429,35 @@ class Gen:
     def rvalue_int(self):
         return ('expr', ('bin', '+', ('num', self.rng.choice([0, 1])), ('num', self.rng.choice([0, 1, 2]))))
 
+    def recursive_routine(self):
+        """a routine calling itself with a decreasing argument, using its parameter and a
+        local after the recursive call (each activation must have its own)"""
+        r = self.rng
+        name = self.fresh('rec')
+        n = self.fresh('n')
+        loc = self.fresh('k')
+        self.routines[name] = ([n], True)
+        body = [('assign', loc, ('expr', ('bin', '*', ('var', n), ('num', r.choice([2, 3, 10]))))),
+                ('if', ('expr', ('bin', '<=', ('var', n), ('num', 0))), [('return', ('num', r.choice([0, 1])))], None),
+                ('assign', n, ('expr', ('bin', '+', ('call', name, [('expr', ('bin', '-', ('var', n), ('num', 1)))]),
+                                         ('var', loc)))),
+                ('print', ('var', loc)),
+                ('return', ('var', n))]
+        return [('define', name, [n], body)]
+
     def define_routine(self, depth):
         r = self.rng
+        if self.feature('recursion', False) and r.random() < 0.2:
+            return self.recursive_routine()
         name = self.fresh('fn')
         params = [self.fresh('p') for _ in range(r.choice([0, 1, 1, 2, 3]))]
         # a parameter may shadow a global
-        if self.globals and r.random() < 0.4 and params:
+        if self.globals and r.random() < self.features.get('shadow', 0.4) and params:
             params[0] = r.choice(self.globals)
+            if len(params) > 1 and r.random() < 0.5 and len(self.globals) > 1:
+                other = r.choice(self.globals)
+                if other != params[0]:
+                    params[-1] = other
         returns = r.random() < 0.6
         saved = self.snapshot_scope()
         self.locals = list(params)
@@ -491,21 +513,26 @@ class Gen:
 
     def stmt(self, depth):
         r = self.rng
-        kinds = ['setreg'] * 4 + ['action'] * 5 + ['assign'] * 3 + ['print'] * 3 + ['wait']
+        w = {'setreg': 4, 'action': 5, 'assign': 3, 'print': 3, 'wait': 1, 'if': 2, 'repeat': 2,
+             'define': 2, 'macro': 1, 'units': 1, 'timeat': 1, 'call': 2, 'get': 1}
+        w.update(self.features.get('weights', {}))
+        kinds = []
+        for k in ('setreg', 'action', 'assign', 'print', 'wait'):
+            kinds += [k] * w[k]
         if depth > 0:
-            kinds += ['if'] * 2 + ['repeat'] * 2
+            kinds += ['if'] * w['if'] + ['repeat'] * w['repeat']
         if self.locals is None and depth >= 2 and depth < self.max_depth and \
                 self.feature('nested_define', False):
-            kinds += ['define'] * 2
+            kinds += ['define'] * w['define']
         if self.locals is None and self.loop_depth == 0 and depth == self.max_depth:
             # top level only
-            kinds += ['define'] * 2 + ['macro', 'units']
+            kinds += ['define'] * w['define'] + ['macro'] * w['macro'] + ['units'] * w['units']
             if self.feature('timeat'):
-                kinds += ['timeat']
+                kinds += ['timeat'] * w['timeat']
         if self.routines:
-            kinds += ['call'] * 2
+            kinds += ['call'] * w['call']
         if self.feature('get') and self.light_names('plain'):
-            kinds += ['get']
+            kinds += ['get'] * w['get']
         k = r.choice(kinds)
         if k == 'setreg':
             return self.setreg()
